@@ -218,3 +218,67 @@ impl<T> EventNode<T> {
         (unsafe { this.value.take().unwrap_unchecked() }, this.time)
     }
 }
+
+// VERIF: read-only structural walk, only compiled with --cfg petrichorit_des_verif
+
+#[cfg(petrichorit_des_verif)]
+impl<T> DualLinkedList<T> {
+    /// Walks the list from the head sentinel to the tail sentinel and checks
+    /// the link structure. Returns (time, id, node address) of all real nodes in list order.
+    pub(super) fn verif_walk(&self) -> Result<Vec<(Duration, usize, usize)>, String> {
+        let head_ptr: *const EventNode<T> = &*self.head;
+        let tail_ptr: *const EventNode<T> = &*self.tail;
+
+        let mut result = Vec::with_capacity(self.len);
+        unsafe {
+            if !(*head_ptr).prev.is_null() {
+                return Err("head sentinel has a predecessor".to_string());
+            }
+            if !(*tail_ptr).next.is_null() {
+                return Err("tail sentinel has a successor".to_string());
+            }
+            if (*head_ptr).value.is_some() || (*tail_ptr).value.is_some() {
+                return Err("sentinel holds a value".to_string());
+            }
+
+            let mut prev = head_ptr;
+            let mut cur: *const EventNode<T> = (*head_ptr).next;
+            let mut steps = 0usize;
+            loop {
+                if cur.is_null() {
+                    return Err(format!("null next pointer after {steps} nodes"));
+                }
+                if (*cur).prev.cast_const() != prev {
+                    return Err(format!("prev pointer of node #{steps} does not point to its predecessor"));
+                }
+                if cur == tail_ptr {
+                    break;
+                }
+                if cur == head_ptr {
+                    return Err("list cycles back to the head sentinel".to_string());
+                }
+                if steps > self.len {
+                    return Err(format!("more than len = {} nodes reachable", self.len));
+                }
+                if (*cur).value.is_none() {
+                    return Err(format!("node #{steps} holds no value"));
+                }
+                if let Some(last) = result.last() {
+                    let last: &(Duration, usize, usize) = last;
+                    if last.0 > (*cur).time {
+                        return Err(format!("node #{steps} is out of order: {:?} after {:?}", (*cur).time, last.0));
+                    }
+                }
+                result.push(((*cur).time, (*cur).id, cur as usize));
+                prev = cur;
+                cur = (*cur).next;
+                steps += 1;
+            }
+        }
+
+        if result.len() != self.len {
+            return Err(format!("list len = {} but {} nodes reachable", self.len, result.len()));
+        }
+        Ok(result)
+    }
+}
